@@ -29,7 +29,14 @@ def scenarios(tier):
   out.append(('thrift (c) 1 endpoint, pool max 1 / queue 1, 3 calls',
               {'stack': 'thrift', 'endpoints': 1, 'ops': [('call', 'c0'), ('call', 'c1', 0.2525), ('call', 'c2')],
                'pool': {'max_watermark': 1, 'max_queue_len': 1}, 'faults': FAULTS, 'timeout': 0.5025}))
-  return out
+  pre = []
+  for name, params in out:
+    if '(a)' in name or '(c)' in name or '(e)' in name:
+      q = dict(params)
+      q['max_preempt'] = 1
+      q['_bound'] = 2 if tier == 'quick' else 3
+      pre.append((name + ' [+1 preemption]', q))
+  return out + pre
 
 
 def run(prop, prefixes, scen, tier, seed, bound, rule, assumptions, level='model_checking'):
@@ -56,7 +63,8 @@ RULE = ('stateless exploration of the real client stack: every execution with at
         'time + what the server received)')
 ASSUME = ['gevent loop contract: ready callbacks FIFO, I/O and timers noticed when the ready queue is empty',
           'one virtual clock; deadlines off the 10 ms tick',
-          'faults on a connection are offered only at quiescent points that follow I/O activity on that connection']
+          'faults on a connection are offered only at quiescent points that follow I/O activity on that connection',
+          'preemption parts: at most one timer expiry between two ready callbacks per execution (the timer callback runs before the pending callbacks, as libev does)']
 
 
 def main(tier, seed):
